@@ -16,9 +16,10 @@ import (
 // ===== family I: TABLE — constants and tables ==========================================================
 
 // escape table as written in the source: (pattern, replacement) pairs, and the table's form:
-//   "pairs"   [][2][]byte / [][2]string literal applied sequentially (order matters),
-//   "bychar"  array or map literal keyed by the character (single pass, order irrelevant),
-//   "replacer" strings.NewReplacer(old1, new1, ...) (single pass).
+//
+//	"pairs"   [][2][]byte / [][2]string literal applied sequentially (order matters),
+//	"bychar"  array or map literal keyed by the character (single pass, order irrelevant),
+//	"replacer" strings.NewReplacer(old1, new1, ...) (single pass).
 func (p *Prog) escapeTable() ([][2]string, token.Pos, string) {
 	pk := p.Pkgs["mxj"]
 	constStr := func(e ast.Expr) (string, bool) {
@@ -173,59 +174,59 @@ func ruleTableEscape(p *Prog, r *Report) {
 	// the loop applies the pairs in table order to an accumulator
 	var rangeElem *ssa.IndexAddr
 	if kind == "pairs" {
-	eachInstr(fn, func(b *ssa.BasicBlock, in ssa.Instruction) {
-		if ia, ok := in.(*ssa.IndexAddr); ok && globalOf(ia.X) == g {
-			rangeElem = ia
-		}
-	})
-	if rangeElem == nil {
-		r.Bad(rule, "mxj.escapeChars", "applies the table in order", p.Pos(fn.Pos()), "no loop over the escape table found")
-	} else {
-		okIdx := isRangeIndex(rangeElem.Index)
-		// a Replace call whose old/new operands are components 0/1 of the element and whose subject is the accumulator
-		okRepl := false
 		eachInstr(fn, func(b *ssa.BasicBlock, in ssa.Instruction) {
-			c, ok := in.(*ssa.Call)
-			if !ok || !isCallTo(&c.Call, "bytes.Replace", "bytes.ReplaceAll", "strings.Replace", "strings.ReplaceAll") {
-				return
-			}
-			comp := func(v ssa.Value) int64 {
-				u, ok := v.(*ssa.UnOp)
-				if !ok {
-					if ix, ok := v.(*ssa.Index); ok {
-						if k, isK := constInt(ix.Index); isK {
-							return k
-						}
-					}
-					return -1
-				}
-				ia, ok := u.X.(*ssa.IndexAddr)
-				if !ok {
-					return -1
-				}
-				k, isK := constInt(ia.Index)
-				if !isK {
-					return -1
-				}
-				return k
-			}
-			if comp(c.Call.Args[1]) == 0 && comp(c.Call.Args[2]) == 1 {
-				// accumulator: result flows back into the subject through a phi
-				if ph, ok := c.Call.Args[0].(*ssa.Phi); ok {
-					for _, e := range ph.Edges {
-						if e == ssa.Value(c) || phiChainReaches(e, ph) || backwardSlice(fn, e)[c] {
-							okRepl = true
-						}
-					}
-				}
+			if ia, ok := in.(*ssa.IndexAddr); ok && globalOf(ia.X) == g {
+				rangeElem = ia
 			}
 		})
-		if okIdx && okRepl {
-			r.OK(rule, "mxj.escapeChars", "applies the table in order", p.Pos(fn.Pos()), "ascending range over the table, each pair applied to the running result")
+		if rangeElem == nil {
+			r.Bad(rule, "mxj.escapeChars", "applies the table in order", p.Pos(fn.Pos()), "no loop over the escape table found")
 		} else {
-			r.Bad(rule, "mxj.escapeChars", "applies the table in order", p.Pos(fn.Pos()), fmt.Sprintf("ascending range=%v, replace(acc, pair[0], pair[1]) feeding the next iteration=%v", okIdx, okRepl))
+			okIdx := isRangeIndex(rangeElem.Index)
+			// a Replace call whose old/new operands are components 0/1 of the element and whose subject is the accumulator
+			okRepl := false
+			eachInstr(fn, func(b *ssa.BasicBlock, in ssa.Instruction) {
+				c, ok := in.(*ssa.Call)
+				if !ok || !isCallTo(&c.Call, "bytes.Replace", "bytes.ReplaceAll", "strings.Replace", "strings.ReplaceAll") {
+					return
+				}
+				comp := func(v ssa.Value) int64 {
+					u, ok := v.(*ssa.UnOp)
+					if !ok {
+						if ix, ok := v.(*ssa.Index); ok {
+							if k, isK := constInt(ix.Index); isK {
+								return k
+							}
+						}
+						return -1
+					}
+					ia, ok := u.X.(*ssa.IndexAddr)
+					if !ok {
+						return -1
+					}
+					k, isK := constInt(ia.Index)
+					if !isK {
+						return -1
+					}
+					return k
+				}
+				if comp(c.Call.Args[1]) == 0 && comp(c.Call.Args[2]) == 1 {
+					// accumulator: result flows back into the subject through a phi
+					if ph, ok := c.Call.Args[0].(*ssa.Phi); ok {
+						for _, e := range ph.Edges {
+							if e == ssa.Value(c) || phiChainReaches(e, ph) || backwardSlice(fn, e)[c] {
+								okRepl = true
+							}
+						}
+					}
+				}
+			})
+			if okIdx && okRepl {
+				r.OK(rule, "mxj.escapeChars", "applies the table in order", p.Pos(fn.Pos()), "ascending range over the table, each pair applied to the running result")
+			} else {
+				r.Bad(rule, "mxj.escapeChars", "applies the table in order", p.Pos(fn.Pos()), fmt.Sprintf("ascending range=%v, replace(acc, pair[0], pair[1]) feeding the next iteration=%v", okIdx, okRepl))
+			}
 		}
-	}
 	}
 	// early returns of the unmodified input must be justified for every special character
 	var specials []string
